@@ -26,7 +26,7 @@ PROP = "C14"
 
 
 def auth_function(ctx: Ctx) -> Func:
-    c = ctx.prog.classes.get("dds._eval_ctx.EvalMainContext")
+    c = ctx.prog.cls("dds._eval_ctx.EvalMainContext")
     if c is None:
         raise AnchorError("dds._eval_ctx.EvalMainContext not found")
     for m in c.methods.values():
@@ -254,7 +254,7 @@ def run(ctx: Ctx) -> None:
     rep.floor("C14.R3", len(adds), 1)
 
     # ---- R4 -------------------------------------------------------------------------------
-    ext = prog.classes.get("dds._eval_ctx.ExternalObject")
+    ext = prog.cls("dds._eval_ctx.ExternalObject")
     if ext is None:
         raise AnchorError("dds._eval_ctx.ExternalObject not found")
     fields = [st.target.id for st in ext.node.body if isinstance(st, ast.AnnAssign) and isinstance(st.target, ast.Name)]
@@ -295,7 +295,7 @@ def run(ctx: Ctx) -> None:
                         ["a dependency record with a value signature is built after the object was found to be external:"] + witness_path(cfg, m, reach),
                         "ext-sig", what="the value of a variable from a non-accepted module is hashed into signatures")
     if n_name_only == 0:
-        vis = prog.classes.get("dds.introspect.ExternalVarsVisitor")
+        vis = prog.cls("dds.introspect.ExternalVarsVisitor")
         where = vis.methods["visit_Name"] if vis is not None and "visit_Name" in vis.methods else None
         rep.bad("C14.R4", where.qname if where else "dds.introspect", "an external variable enters the signature by name only (sig=None)",
                 where.loc() if where else "dds/introspect.py", ["no ExternalDep(sig=None) is built under `isinstance(.., ExternalObject)`"],
@@ -331,7 +331,8 @@ def run(ctx: Ctx) -> None:
     rep.floor("C14.R5", n5, 4)
 
     # ---- R6 -------------------------------------------------------------------------------
-    rec = prog.funcs.get("dds._retrieve_objects.ObjectRetrieval._retrieve_object_rec")
+    from .roles import resolver_rec as _resolver_rec
+    rec = _resolver_rec(ctx)
     if rec is None:
         raise AnchorError("dds._retrieve_objects.ObjectRetrieval._retrieve_object_rec not found")
     cfg = cfg_of(rec)
@@ -364,7 +365,7 @@ def run(ctx: Ctx) -> None:
     # ---- R9: acceptance is decided on the final path, not on a package passed through on the way ----------------------
     rep.rule("C14.R9", "while walking a dotted name the resolver never answers 'external' because a MODULE met on the way is not accepted: an accepted "
                        "module may sit below non-accepted parents (only `proj.core.etl` accepted, reached as proj.core.etl.step())")
-    rec9 = prog.funcs.get("dds._retrieve_objects.ObjectRetrieval._retrieve_object_rec")
+    rec9 = _resolver_rec(ctx)
     if rec9 is None:
         raise AnchorError("dds._retrieve_objects.ObjectRetrieval._retrieve_object_rec not found")
     cfg9 = cfg_of(rec9)
